@@ -5,7 +5,7 @@
    nested transaction is rolled back and the clause is proved in full. *)
 From Continuum Require Import Model.Base Model.VTable Model.Core Model.Savepoint
      Proofs.CoreP Proofs.CoreChainP Proofs.RollbackP Proofs.SavepointP
-     Model.Manager Proofs.ManagerP Gen.ManagerGen Proofs.ManagerGenP.
+     Model.Manager Proofs.ManagerP Gen.ManagerGen Proofs.ManagerGenP Gen.UowGen Proofs.UowGenP.
 
 (* whatever happened inside the transaction - any number of flushes, any partial work, a failure at
    any statement - the rollback restores the committed database and the initial unit of work *)
@@ -64,6 +64,19 @@ Theorem C06_clear_inside_savepoint_does_nothing : forall dbapi closed U M sid,
   gen_clear dbapi closed true U M sid = (U, M).
 Proof. exact gen_clear_nested. Qed.
 
+(* the savepoint state of the CURRENT unit_of_work.py (Gen/UowGen.v, regenerated on every build) is a complete copy
+   of the unit of work: every field reset() initialises is captured by savepoint() - mutable ones as copies - and put
+   back by rollback_to_savepoint(); the components of the model's unit of work are among them.  This is what
+   Model/Savepoint.v assumes when it saves and restores the whole unit of work. *)
+Theorem C06_savepoint_state_is_complete_in_the_code : forall f kind,
+  In (f, kind) gen_uow_fields ->
+  exists how, how_saved f = Some how /\ snapshot_ok kind how = true /\ restored f = true.
+Proof. exact savepoint_state_is_complete. Qed.
+
+Theorem C06_model_unit_of_work_is_in_the_snapshot :
+  forallb (fun f => match kind_of f with Some _ => true | None => false end) [F_CUR; F_OPS; F_VOBJS; F_PEND] = true.
+Proof. exact model_components_are_fields. Qed.
+
 Definition C06_cfg : cfg :=
   mkcfg true false false false true [mkcls true true 0 [mkcol true false true; mkcol false false true] []].
 Definition c6_ins k v := mkev 0 0 [Some k; Some v] [true;true] [] [0%nat;1%nat] false true [false;false].
@@ -90,3 +103,5 @@ Print Assumptions C06_no_state_left_in_memory.
 Print Assumptions C06_clear_connection_is_the_code.
 Print Assumptions C06_clear_is_the_code.
 Print Assumptions C06_clear_inside_savepoint_does_nothing.
+Print Assumptions C06_savepoint_state_is_complete_in_the_code.
+Print Assumptions C06_model_unit_of_work_is_in_the_snapshot.
